@@ -309,6 +309,7 @@ pub fn dispatch(f: &[&str]) -> String {
             h.set(cd);
             hex(h.to_string().as_bytes())
         }
+        "transport.send_msg" => crate::transports::send_msg(f[1], f[2], f[3]),
         "transport.stub" => crate::transports::stub(f[1], f[2], f[3]),
         "transport.file" => crate::transports::file(f[1], f[2], f[3]),
         "transport.sendmail" => crate::transports::sendmail(f[1], f[2], f[3], f[4]),
